@@ -359,6 +359,21 @@ class Ctx:
         return bool(np.all(np.abs(a - b) <= tol * scale))
 
 
+def read_shuffled(getters, key):
+    """Evaluate the thunks of `getters` (dict name -> callable) in an order drawn from a generator seeded by `key`
+    (any JSON-able value, e.g. the case's vertices): an answer must not depend on what was asked before, and a cache
+    filled in some temporary frame by one query only shows when another query is read AFTER it.  Deterministic per
+    case, so a replay asks in the same order.  Returns (values dict, order list)."""
+    h = hashlib.sha1(json.dumps(key, sort_keys=True, default=jsonable).encode()).digest()
+    rng = np.random.default_rng(int.from_bytes(h[:8], "little"))
+    names = list(getters)
+    order = [names[i] for i in rng.permutation(len(names))]
+    out = {}
+    for n in order:
+        out[n] = getters[n]()
+    return out, order
+
+
 def exc_kind(e):
     for k in ("ValueError", "RuntimeError", "KeyError", "AttributeError", "NotImplementedError",
               "IndexError", "TypeError", "AssertionError", "ZeroDivisionError"):
